@@ -371,10 +371,10 @@ theorem setCreate_state_is_merge (ret : Int) (maxSil : Nat) (now : Int) (s : Sto
       simp only [List.foldl_append]
       cases prev with
       | none =>
-        simp only [List.foldl_nil]
+        simp only [expirePrev, List.foldl_nil]
         rw [(setSilence_st now _ _).1, (setSilence_st now _ _).2, foldl_bcastOf]
       | some p =>
-        simp only
+        simp only [expirePrev]
         rw [← expireCore_st ret now s p.sil, (setSilence_st now _ _).1, (setSilence_st now _ _).2, foldl_bcastOf]
 
 /-- `Set` changes the state map exactly by merging the versions it broadcasts (the expiry
